@@ -203,7 +203,20 @@ def run_case(case, ctx):
         xx = complex(x[0]) if (case.get('scalar_x') and dim == 1) else x
         if np.iscomplexobj(xx) and not np.any(np.imag(xx)):
             xx = np.real(xx)
-        ok = expect_value_error(ctx, case, lambda: getattr(nd, cls)(f, **kw)(xx), cls=cls, method=method, what=what)
+        def misuse():
+            if 'seed' in case and case['seed'] % 5 < 2:
+                # the object was built (and used) with a real-step method and reaches the complex-step method through the setter
+                ctx.count('complex_step_method_reached_through_the_setter')
+                obj = getattr(nd, cls)(f, **dict(kw, method=['central', 'forward'][case['seed'] % 2]))
+                if case['seed'] % 5 == 0:
+                    try:
+                        obj(np.real(xx))
+                    except Exception:
+                        pass
+                obj.method = method
+                return obj(xx)
+            return getattr(nd, cls)(f, **kw)(xx)
+        ok = expect_value_error(ctx, case, misuse, cls=cls, method=method, what=what)
     elif kind == 'not_one_value_per_element':
         size, mode = case['dim'], case['mode']
         x = np.linspace(0.5, 1.5, size)
